@@ -80,7 +80,34 @@ def match_f6(f: Failure) -> bool:
 
 
 # F6 (unlabeled choice in an itext-requiring list) is repaired: no matcher, a recurrence is a VIOLATION.
-MATCHERS = {}
+
+
+def osm_translated_tag_suffixes(form) -> set[str]:
+    """`/<osm question>/<tag>:label` for every tag with a translated label (label::lang cell) of the
+    tag list of an osm question - the shape of F45."""
+    tags: dict[str, list[dict]] = {}
+    for t in form.get("osm") or []:
+        tags.setdefault(str(t.get("list_name")), []).append(t)
+    out = set()
+    for row in form.get("survey") or []:
+        ty = str(row.get("type", "")).split(" ")
+        if len(ty) == 2 and ty[0] == "osm":
+            for t in tags.get(ty[1], []):
+                if any(k.startswith("label::") and v not in (None, "") for k, v in t.items()):
+                    out.add(f"/{row.get('name')}/{t.get('name')}:label")
+    return out
+
+
+def match_f45(f: Failure) -> bool:
+    """Every dangling id is the label id of an osm tag with a translated label."""
+    if f.kind != "dangling-ref":
+        return False
+    bad = set(f.extra.get("dangling", []))
+    sufs = osm_translated_tag_suffixes(f.case["form"])
+    return bool(bad) and all(any(b.endswith(sx) for sx in sufs) for b in bad)
+
+
+MATCHERS = {"F45-osm-tag-itext": match_f45}
 
 
 # ------------------------------------------------------------------------------ one case
@@ -147,6 +174,15 @@ def one_case(ctx, case, tag="gen"):
             elif [t["forms"] for t in model["translations"]] != [t["forms"] for t in obs["translations"]]:
                 ctx.mismatch("<value form> lists per text (content types, their order, '-' media omitted)", case,
                              [t["forms"] for t in obs["translations"]], [t["forms"] for t in model["translations"]])
+            else:
+                # value texts, wherever the model states them (texts without <output> substitution)
+                for tm, ti in zip(model["translations"], obs["translations"]):
+                    for pid, vm, vi in zip(tm["ids"], tm["values"], ti["values"]):
+                        bad = [(a, b) for a, b in zip(vm, vi) if a is not None and a != b]
+                        if bad:
+                            ctx.mismatch("<value> text", case, {"lang": ti["lang"], "id": pid, "impl": vi}, vm)
+                        ctx.count("values-compared", sum(1 for a in vm if a is not None))
+                        ctx.count("values-not-stated", sum(1 for a in vm if a is None))
             for k in ("bodyRefs", "bindRefs", "itemIds"):
                 if obs[k] != model[k]:
                     ctx.mismatch(k, case, obs[k], model[k])
@@ -159,7 +195,11 @@ def one_case(ctx, case, tag="gen"):
                 ctx.mismatch("guard wf (no empty dict in a translatable slot, unique bind-message keys) is false "
                              "on a builder output", case, "built survey", g)
             ctx.count("guard:choicesLabeled-" + str(g["choicesLabeled"]).lower())
-            if g["wf"] and not model["holds"]["ok"]:
+            ctx.count("guard:tagsPlain-" + str(g["tagsPlain"]).lower())
+            if g["tagsPlain"] != (not osm_translated_tag_suffixes(form)):
+                ctx.mismatch("F45 shape on the sheets vs guard tagsPlain on the built survey", case,
+                             sorted(osm_translated_tag_suffixes(form)), g)
+            if g["wf"] and g["tagsPlain"] and not model["holds"]["ok"]:
                 raise vcore.Infra("theorem holds_out contradicted by the driver: " + str(model["holds"]))
             if g["choicesLabeled"] != (not (unlabeled_itext_choices(form))):
                 ctx.mismatch("F6 shape on the sheet vs guard choicesLabeled on the built survey", case,
@@ -250,6 +290,15 @@ def directed_cases(rng):
                 else:
                     kw["default_language"] = dl
                 out.append({"form": form, "kw": kw})
+    # F45: osm question whose tags have translated labels (tags are not visited by _setup_translations)
+    for tagcols in (["label::en", "label::fr"], ["label::en"], ["label"]):
+        tags = []
+        for i, nm in enumerate(["name", "addr"]):
+            t = {"list_name": "btags", "name": nm}
+            for c in (tagcols[:1] if i else tagcols):
+                t[c] = "T"
+            tags.append(t)
+        out.append({"form": {"survey": [{"type": "osm btags", "name": "b", "label::en": "B"}], "osm": tags}, "kw": {}})
     rng.shuffle(out)
     return out
 
@@ -301,6 +350,7 @@ def explore(ctx, factor, bs):
         "wf_false_inputs": ctx.dist.get("guard:wf-false", 0),
         "choicesLabeled_false_inputs (F6 shape, repaired: padded)": ctx.dist.get("guard:choicesLabeled-false", 0),
         "choicesLabeled_true_inputs": ctx.dist.get("guard:choicesLabeled-true", 0),
+        "tagsPlain_false_inputs (F45 shape, open finding)": ctx.dist.get("guard:tagsPlain-false", 0),
     }
 
 
